@@ -8,7 +8,7 @@
 (* TLC checks the design-level laws on every case and emits each case with *)
 (* the specification's result as a tour line.                              *)
 (***************************************************************************)
-EXTENDS TimeConv, Json, FiniteSets
+EXTENDS TimeConvCases, Json, FiniteSets
 
 CONSTANTS Tier   \* "quick" | "thorough"
 
